@@ -26,3 +26,55 @@ def COND_GROUP(p, idx):
     if RULE(p, idx):
         return GRPTEXT(p)
     return TEXT(p)
+
+
+def OT(x):
+    # the text an operand contributes: a Pregex's pattern, or the escaped form of a plain string
+    if STRV(x):
+        return ESC(x)
+    return TEXT(x)
+
+
+def ISEMPTY(x):
+    if STRV(x):
+        return x == ''
+    return EMPTY(x)
+
+
+def G(x):
+    # reference rendering of an operand as ONE unit
+    if ISEMPTY(x):
+        return ''
+    return '(?:' + OT(x) + ')'
+
+
+def BADPRE(x):
+    return not STRV(x) and not PREGEX(x)
+
+
+def REF_CONCAT(s, x, on_right):
+    if on_right:
+        return G(s) + G(x)
+    return G(x) + G(s)
+
+
+def REF_EITHER(s, x, on_right):
+    if ISEMPTY(x):
+        return OT(s)
+    if on_right:
+        return G(s) + '|' + G(x)
+    return G(x) + '|' + G(s)
+
+
+def REF_ENCLOSE(s, x):
+    return G(x) + G(s) + G(x)
+
+
+def REF_LOOK(s, x, before, after):
+    # G(s) wrapped by look-arounds:  before / after are '' or the opening of a look-around, e.g. '(?<='
+    t = G(s)
+    if before != '':
+        t = before + OT(x) + ')' + t
+    if after != '':
+        t = t + after + OT(x) + ')'
+    return t
